@@ -9,7 +9,8 @@ RULE = ("histories of 1-4 add_constraint_R_zero calls on one PCBO (optionally ca
         "dict, reversed-key dict or PUBO. Penalty = exact polynomial difference after - before, checked on the full "
         "truth table over P's variables x new ancillas. Non-trivial = history containing a relation that is neither "
         "constant-true nor constant-false; distinct = digest of the history")
-TIERS = {"quick": {"shards": 8, "cases": 400}, "thorough": {"shards": 16, "cases": 10000}}
+TIERS = {"quick": {"shards": 8, "cases": 2500}, "thorough": {"shards": 16, "cases": 30000}}
+FLOOR_BASE = {"quick": 400, "thorough": 10000}    # case counts the floors below were calibrated for; the launcher scales them
 KIND = "bool"
 
 
